@@ -306,12 +306,16 @@ func ruleTokenAgreement(w *World, r *RuleResult) {
 						continue
 					}
 					hit := false
-					w.exprOf(par, g.Cond).walk(func(x *Expr) bool {
-						if x.Op == "const" && x.Name == tok {
-							hit = true
-						}
-						return true
-					})
+					// a short-circuit `a || b` may be a φ whose constant edge stands for the disjunct tested in
+					// the predecessor: the disjuncts count as well
+					for _, cnd := range append([]ssa.Value{g.Cond}, shortCircuitDisjuncts(g.Cond)...) {
+						w.exprOf(par, cnd).walk(func(x *Expr) bool {
+							if x.Op == "const" && x.Name == tok {
+								hit = true
+							}
+							return true
+						})
+					}
 					if !hit {
 						continue
 					}
@@ -362,16 +366,31 @@ func ruleTokenAgreement(w *World, r *RuleResult) {
 	// sign: writer emits '-' first under d.Negative; parser consumes "-" first (before ToLower / form dispatch)
 	key := "sign byte"
 	firstMinus := false
-	if b0 := par.Blocks[0]; true {
-		for _, in := range b0.Instrs {
+	// the first thing the parser does with its input is the test for a leading "-" (its own helper or
+	// strings.HasPrefix), in setString itself or in the helper it starts by delegating to
+	inPars := map[*ssa.Function]bool{}
+	for _, pf := range pars {
+		inPars[pf] = true
+	}
+	for cur, hop := par, 0; cur != nil && hop < 4; hop++ {
+		var first *ssa.Call
+		for _, in := range cur.Blocks[0].Instrs {
 			if c, ok := in.(*ssa.Call); ok {
-				if w.calleeName(c) == "consumePrefix" {
-					if k, ok := c.Common().Args[1].(*ssa.Const); ok && constant.StringVal(k.Value) == "-" {
-						firstMinus = true
-					}
-				}
+				first = c
 				break
 			}
+		}
+		cur = nil
+		if first == nil {
+			break
+		}
+		switch nm := w.calleeName(first); {
+		case nm == "consumePrefix" || nm == "strings.HasPrefix":
+			if k, ok := first.Common().Args[1].(*ssa.Const); ok && k.Value != nil && k.Value.Kind() == constant.String && constant.StringVal(k.Value) == "-" {
+				firstMinus = true
+			}
+		case callee(first) != nil && inPars[callee(first)]:
+			cur = callee(first)
 		}
 	}
 	writerMinus := false
@@ -839,4 +858,32 @@ func (w *World) globalArrayInts(g *ssa.Global) (map[int64]int64, bool) {
 		}
 	}
 	return out, found
+}
+
+// shortCircuitDisjuncts: for a boolean φ with constant edges (the value form of `a || b` / `a && b`), the
+// conditions tested at the end of the blocks those edges come from.
+func shortCircuitDisjuncts(v ssa.Value) []ssa.Value {
+	phi, ok := v.(*ssa.Phi)
+	if !ok {
+		return nil
+	}
+	var out []ssa.Value
+	for i, e := range phi.Edges {
+		if _, isK := e.(*ssa.Const); !isK {
+			continue
+		}
+		pb := phi.Block().Preds[i]
+		for hop := 0; hop < 3 && pb != nil; hop++ {
+			if iff, isIf := pb.Instrs[len(pb.Instrs)-1].(*ssa.If); isIf {
+				out = append(out, iff.Cond)
+				out = append(out, shortCircuitDisjuncts(iff.Cond)...)
+				break
+			}
+			if len(pb.Preds) != 1 {
+				break
+			}
+			pb = pb.Preds[0]
+		}
+	}
+	return out
 }
